@@ -21,8 +21,9 @@ EXTENDS PushContainers
 
 ISEmpty == [names |-> {}, tag |-> <<>>]
 ISTag(s, n) == IF n \in DOMAIN s.tag THEN s.tag[n] ELSE 0
-ISLoad(s) == LET ns == s.names \cup Registry IN
-             [names |-> ns, tag |-> [n \in ns |-> IF n \in Registry THEN 0 ELSE ISTag(s, n)]]
+Builtin == Registry \cup ExtraInstr      \* everything `load` registers in the build under test
+ISLoad(s) == LET ns == s.names \cup Builtin IN
+             [names |-> ns, tag |-> [n \in ns |-> IF n \in Builtin THEN 0 ELSE ISTag(s, n)]]
 ISAdd(s, n, k) == LET ns == s.names \cup {n} IN
                   [names |-> ns, tag |-> [m \in ns |-> IF m = n THEN k ELSE ISTag(s, m)]]
 \* the probe state of exec: INTEGER = <<3, 2>> (top first), everything else empty
